@@ -426,12 +426,15 @@ Definition same_json_text (a b : bytes) : bool :=
   | Some x, Some y => bytes_eqb x y
   | _, _ => bytes_eqb a b
   end.
+(* a typed nil slice is marshalled as null, an untyped nil or empty list as []: different events
+   where Build lets the former through (room version 12 auth events) *)
 Definition same_ids_text (a b : bytes) : bool :=
-  match norm_ids a, norm_ids b with
-  | Some x, Some y => bytes_eqb (pct_list (Some x)) (pct_list (Some y))
-  | None, None => true
-  | _, _ => false
-  end.
+  if bytes_eqb a (bs "null") || bytes_eqb b (bs "null") then bytes_eqb a b
+  else match norm_ids a, norm_ids b with
+       | Some x, Some y => bytes_eqb (pct_list (Some x)) (pct_list (Some y))
+       | None, None => true
+       | _, _ => false
+       end.
 
 Definition same_event_args (a b : list bytes) : bool :=
   match a, b with
